@@ -1,11 +1,13 @@
 package chainkit
 
 import (
-	"github.com/nspcc-dev/neo-go/pkg/vm/stackitem"
 	"bytes"
-	"github.com/nspcc-dev/neo-go/pkg/smartcontract/manifest"
+	"encoding/hex"
 	"errors"
 	"fmt"
+	"github.com/nspcc-dev/neo-go/pkg/core/storage"
+	"github.com/nspcc-dev/neo-go/pkg/smartcontract/manifest"
+	"github.com/nspcc-dev/neo-go/pkg/vm/stackitem"
 	"math/big"
 	"sort"
 	"strings"
@@ -449,8 +451,17 @@ func (b *Builder) MakeTx(a Action) (*transaction.Transaction, error) {
 	for _, at := range a.Attrs {
 		switch at.Kind {
 		case "conflicts":
-			if len(b.TxHashes) > 0 {
-				h := b.TxHashes[len(b.TxHashes)-1-(at.Ref%len(b.TxHashes))]
+			if at.Ref >= 3 || len(b.TxHashes) > 0 {
+				var h util.Uint256
+				if at.Ref >= 3 {
+					// a transaction that was signed but never sent (the documented use of the attribute: cancel it):
+					// the hash names nothing on chain, the block leaves conflict records (hash -> height, hash+signer ->
+					// height) that make the named transaction unacceptable while they are traceable. Few distinct
+					// hashes, so that one hash is named again by later blocks.
+					h = SpareHash(at.Ref)
+				} else {
+					h = b.TxHashes[len(b.TxHashes)-1-(at.Ref%len(b.TxHashes))]
+				}
 				dup := false
 				for _, e := range tx.Attributes {
 					if c, ok := e.Value.(*transaction.Conflicts); ok && c.Hash == h {
@@ -819,4 +830,23 @@ func emitBigNEFArgs(w *io.BinWriter, c *asm.Contract) bool {
 	w.WriteB(byte(stackitem.ByteArrayT))
 	emit.Opcodes(w, opcode.PUSH2, opcode.PACK)
 	return true
+}
+
+// SpareHash is the hash of the n-th "signed but never sent" transaction named by generated Conflicts attributes.
+func SpareHash(n int) util.Uint256 {
+	return hash.Sha256([]byte{'s', 'p', 'a', 'r', 'e', byte(n % 3)})
+}
+
+// ConflictRecords lists the on-chain conflict records of a store: executable-prefixed keys (hash, or hash + signer)
+// whose value is the 5-byte stub (transaction marker + height). They decide whether a transaction named by a Conflicts
+// attribute of an on-chain transaction is acceptable (dao.HasTransaction).
+func ConflictRecords(st storage.Store) map[string]string {
+	m := map[string]string{}
+	st.Seek(storage.SeekRange{Prefix: []byte{byte(storage.DataExecutable)}}, func(k, v []byte) bool {
+		if len(v) == 5 && v[0] == storage.ExecTransaction && (len(k) == 33 || len(k) == 53) {
+			m[hex.EncodeToString(k)] = hex.EncodeToString(v)
+		}
+		return true
+	})
+	return m
 }
